@@ -39,6 +39,19 @@ def run(ctx):
         ob('R09.1').run(f, '%s.reversed().point(t) == point(1-t)' % cname,
                         lambda it, P=P, cq=cq: it.call_method(it.call_method(it.construct(cq, *P), 'reversed'), 'point', T),
                         lambda v, B=B: decide_equal(v, B(1 - T)))
+        if cname != 'Line':
+            # ... also for a segment that has been measured before (its length cache is populated): what a copy is built FROM must
+            # not depend on what the object remembers
+            PC = [Rat.const(z) for z in (0, 1 + 2j, 3 - 1j, 7 + 3j)][:n - 1] + [Rat.const(7 + 3j)]
+
+            def th_rev_measured(it, PC=PC, cq=cq):
+                seg = it.construct(cq, *PC)
+                for args in ((), (1, 0)):
+                    it.call_method(seg, 'length', *args)
+                return it.call_method(it.call_method(seg, 'reversed'), 'point', T)
+            ob('R09.1').run(f, '%s.reversed().point(t) == point(1-t) after length() was measured (concrete control points)' % cname, th_rev_measured,
+                            lambda v, PC=PC: decide_equal(v, bernstein(PC, 1 - T)),
+                            opts={'globals': {('*', '_quad_available'): False}, 'call_hooks': {'path.segment_length': lambda it, a, k: Rat.sym('SEGLEN')}})
         f = mdl.func(cq + '.split')
 
         def th_split(it, P=P, cq=cq):
